@@ -366,6 +366,25 @@ func c20GenCase(g *gen, id int, rep *runReport) (c20Case, string) {
 				entries[c0.d].State = discovery.Noop
 			}
 			rep.hist("a:targeted-provider-removed")
+			// line-range collision: a Removed entry carries BASE coordinates, so it may sit on exactly the lines a HEAD rule of the same
+			// file and kind occupies now (the rule below slid up after the deletion).  Make the removed provider collide with its dependant.
+			if r.Intn(2) == 0 && entries[c0.p].Rule.Type() == entries[c0.d].Rule.Type() && entries[c0.d].State != discovery.Removed {
+				entries[c0.p].Path = entries[c0.d].Path
+				entries[c0.p].Rule.Lines = entries[c0.d].Rule.Lines
+				rep.hist("a:removed-provider-on-the-lines-of-its-dependant")
+			}
+		}
+	}
+	// ... and collisions between a Removed entry and an arbitrary non-removed entry of the same kind
+	for i := range entries {
+		if entries[i].State != discovery.Removed || r.Intn(8) != 0 {
+			continue
+		}
+		j := r.Intn(len(entries))
+		if j != i && entries[j].State != discovery.Removed && entries[j].Rule.Type() == entries[i].Rule.Type() {
+			entries[i].Path = entries[j].Path
+			entries[i].Rule.Lines = entries[j].Rule.Lines
+			rep.hist("a:removed-entry-on-the-lines-of-a-head-entry")
 		}
 	}
 	// symlink copies (Path.Name != Path.SymlinkTarget), as addSymlinkedEntries creates them
@@ -524,6 +543,38 @@ func c20History(g *gen) *history {
 		}
 		state[p] = f
 	}
+	// slide stratum (one history in four): a two-line provider directly above a two-line dependant of the same kind; the branch
+	// deletes the provider, so the dependant slides up onto exactly the removed rule's lines
+	slideUID, slidePath := 0, ""
+	if r.Intn(4) == 0 {
+		p := pick(r, sortedKeys(state))
+		f := state[p]
+		prov := c20Rule(g, false)
+		prov.For, prov.Labels, prov.Blank, prov.Plain = "", nil, 0, nil
+		dep := c20Rule(g, false)
+		dep.Kind, dep.For, dep.Labels, dep.Blank, dep.Plain = prov.Kind, "", nil, 0, nil
+		dep.Refs, dep.AlertRefs, dep.NameRefs = nil, nil, nil
+		names := c20Records
+		if prov.Kind == "alert" {
+			names = c20Alerts
+		}
+		for dep.Name = pick(r, names); dep.Name == prov.Name; dep.Name = pick(r, names) {
+		}
+		if prov.Kind == "record" {
+			dep.Expr = pick(r, c20VecForms(prov.Name))
+			dep.Refs = []string{prov.Name}
+		} else {
+			dep.Expr = "(" + pick(r, c20AlertForms(prov.Name)) + ") > 0"
+			dep.AlertRefs = []string{prov.Name}
+		}
+		if _, err := promParser.ParseExpr(dep.Expr); err == nil {
+			pos := r.Intn(len(f.Rules) + 1)
+			f.Rules = append(f.Rules[:pos:pos], append([]gRule{prov, dep}, f.Rules[pos:]...)...)
+			state[p] = f
+			slideUID, slidePath = prov.UID, p
+			strata["provider-directly-above-same-sized-dependant-deleted"] = true
+		}
+	}
 	hi.Fork = cloneState(state)
 	for p := range state {
 		hi.Origin[p] = p
@@ -572,6 +623,18 @@ func c20History(g *gen) *history {
 					}
 					state[f[1]] = fl
 					ops = append(ops, hOp{Op: "edit-file", Path: f[1]})
+				}
+			}
+		}
+		if ci == 0 && slideUID != 0 {
+			if f, ok := state[slidePath]; ok {
+				for i, ru := range f.Rules {
+					if ru.UID == slideUID {
+						ops = append(ops, hOp{Op: "delete-rule", Path: slidePath, Detail: ru.Kind + ":" + ru.Name + " (directly above its dependant)"})
+						f.Rules = append(append([]gRule{}, f.Rules[:i]...), f.Rules[i+1:]...)
+						state[slidePath] = f
+						break
+					}
 				}
 			}
 		}
